@@ -25,7 +25,7 @@ HIST = {
     'C07': dict(quick=700, thorough=9000, nops=9, nops_thorough=14),
     'C08': dict(quick=700, thorough=9000, nops=10, nops_thorough=16),
     'C09': dict(quick=700, thorough=9000, nops=12, nops_thorough=16),
-    'C10': dict(quick=900, thorough=12000, nops=14, nops_thorough=18, alpha='abA \t\n-', start=2),
+    'C10': dict(quick=900, thorough=12000, nops=14, nops_thorough=18, alpha='aabbA  \t\n--\r\x0b\x0c\x1c\x85\u2028\xe9', start=2),
     'C11': dict(quick=900, thorough=12000, nops=12, nops_thorough=16, alpha='aabbbA \t\n-', start=1),
     'C12': dict(quick=700, thorough=9000, nops=9, nops_thorough=12, start=1),
     'C16': dict(quick=700, thorough=9000, nops=8, nops_thorough=12),
@@ -146,6 +146,25 @@ def design_runs(prop, tier):
     return models.run_for(prop, tier)
 
 
+def model_replay(tier, seed, sample):
+    """spec -> code: histories exported by TLC from the reference model (one per transition), replayed on the real objects
+    and judged by the same contracts."""
+    from . import models
+    import random
+    r = models.exported_histories(tier)
+    hs = r['histories']
+    total = len(hs)
+    if sample and sample < total:
+        hs = random.Random(seed).sample(hs, sample)
+    camp = campaign.run_campaign('model_replay', len(hs), seed, hist=hs, per_shard_max=100000)
+    info = {'model': r['model'], 'transitions_exported': total, 'histories_replayed_on_impl': len(hs), 'states': r['states'],
+            'transitions': r['transitions'], 'what': r['what'] + '; export of one history per transition', 'ok': True, 'detail': ''}
+    return camp, info
+
+
+MODEL_PROPS = ('C04', 'C05', 'C06', 'C07', 'C08', 'C09')
+
+
 def check_history(prop, tier, seed):
     t0 = time.time()
     cfg = HIST[prop]
@@ -154,10 +173,16 @@ def check_history(prop, tier, seed):
     camp = campaign.run_campaign('history', cfg[tier], seed, profile=prop, nops=nops, alpha=cfg.get('alpha'),
                                  maxlen=12 if tier == 'thorough' else 8,
                                  odd=0.05 if prop in ('C09', 'C08') else 0.0)
+    extra = {}
+    if prop in MODEL_PROPS:
+        mc, info = model_replay(tier, seed, None if tier == 'thorough' else 4000)
+        camp = merge(camp, mc)
+        design = [d for d in design if d['model'] != info['model']] + [info]
+        extra = {'model_histories_replayed': info['histories_replayed_on_impl'], 'model_transitions_exported': info['transitions_exported']}
     return report(prop, tier, seed, t0, camp, design,
                   extra_cov={'rule': 'random histories of public calls (profile %s, <=%d ops, alphabet "ab -", palette of '
                                      'conflicting/equal settings); an evaluation is non-trivial when the clause antecedent '
-                                     'holds (range non-empty, styles present, conflict present, ...)' % (prop, nops)})
+                                     'holds (range non-empty, styles present, conflict present, ...)' % (prop, nops), **extra})
 
 
 def replay(prop, path):
@@ -331,11 +356,13 @@ def check_c14(prop, tier, seed):
     c2 = campaign.run_campaign('sp_codes', 1, seed)
     c3 = campaign.run_campaign('sp_colours', 1, seed)
     c4 = campaign.run_campaign('sp_mix', 120 if thorough else 14, seed, names=names, block=100)
-    return report(prop, tier, seed, t0, merge(c1, c2, c3, c4), design,
+    c5 = campaign.run_campaign('sp_hist', 6000 if thorough else 500, seed, nops=8 if thorough else 6)
+    return report(prop, tier, seed, t0, merge(c1, c2, c3, c4, c5), design,
                   extra_cov={'rule': '%d AnsiFormat names x 10 spellings (member, 3 letter cases x 3 separators); every code 0..255 as '
                                      'int/str/verbatim; integer runs with the colour group at any position in 4 encodings; rgb()/color256() '
                                      'helper calls and string spellings over boundary values, hex/decimal, brackets, spaces; malformed '
-                                     'strings; random mixtures nested to depth 3, ;-joined strings, bad names/types, self-containing list'
+                                     'strings; random mixtures nested to depth 3, ;-joined strings, bad names/types, self-containing list; random apply/remove '
+                                     'histories executed twice with every settings argument spelled two different ways, results compared'
                                      % len(sel),
                              'names_total': len(names), 'names_covered': len(sel), 'exhaustive': thorough})
 
